@@ -4,7 +4,7 @@ import lib, storelib as S
 from lib import Result, model_call, run_sharded, e_fmt, e_list, Reader
 
 RULE = ('formats (signed, n_word 1..256, n_frac -8..n_word+8, complex or not; complex for n_word<=52): exhaustive over n_word<=24 and the boundary n_word set {31,32,33,52,53,63,64,65,100,128,255,256} in the quick tier '
-        '(every n_word in the thorough tier); for each: x.dtype, get_dtype(\'fxp\'), get_dtype(\'Q\'), get_dtype(None) under both configured defaults, Fxp(dtype=x.dtype), resize(dtype=...), and parsing of Q/UQ/S/U spellings in lower, '
+        '(every n_word in the thorough tier); for each: x.dtype, get_dtype(\'fxp\'), get_dtype(\'Q\'), get_dtype(None) under both configured defaults, Fxp(dtype=x.dtype), resize(dtype=...), fxp_sum(dtype=x.dtype), and parsing of Q/UQ/S/U spellings in lower, '
         'upper and mixed case (whenever m = n_word - n_frac >= 0). Strings are compared verbatim with the model renderer; parsed formats with the model parser. Non-trivial = n_frac is negative, exceeds n_word, or the format is complex or unsigned; distinct by format and notation.')
 ASSUMPTIONS = ['the two regular expressions of _parseformatstr are represented by a hand-written matcher in the model; re itself is exercised only through the implementation']
 
@@ -35,6 +35,11 @@ def run_cases(cases, res, stratum):
             obs['ctor_real'] = None if yr is None else (yr.dtype, yr.get_dtype('fxp'), bool(np_iscomplex(yr)))
             if cx:
                 cr = fx.Fxp(1 + 2j, s, n, nf); cr(0.5); obs['complex_then_real'] = (cr.dtype, cr.get_dtype('fxp'), bool(np_iscomplex(cr)))
+            # the second parser of dtype strings (utils.get_sizes_from_dtype, reached through fxp_sum(dtype=...))
+            try:
+                sm = fx.fxp_sum(fx.Fxp([0, 0], s, n, nf), dtype=fxp_str(s, n, nf, cx)); obs['sum_dtype'] = (bool(sm.signed), int(sm.n_word), int(sm.n_frac))
+            except Exception as e:
+                obs['sum_dtype'] = ('raised ' + lib.exc_name(e), str(e)[:120])
             obs['parse'] = {}
             spell = [fxp_str(s, n, nf, cx), fxp_str(s, n, nf, cx).upper()]
             if n - nf >= 0 and not cx:
@@ -69,6 +74,8 @@ def run_cases(cases, res, stratum):
             res.fail(c, 'C12: constructing / resizing with dtype=x.dtype does not reproduce the format', expected=(s, n, nf, cx), got=(obs['ctor'], obs['resize'])); k += len(obs['parse']); continue
         if obs['resize_int'] != (s, n, nf, fxp_str(s, n, nf, False)):
             res.fail(c, 'C12: resizing an integer-valued object with dtype= does not give the format / dtype string', expected=(s, n, nf, fxp_str(s, n, nf, False)), got=obs['resize_int']); k += len(obs['parse']); continue
+        if obs['sum_dtype'] != (s, n, nf):
+            res.fail(c, 'C12: fxp_sum(dtype=x.dtype) (utils.get_sizes_from_dtype) does not reproduce the format', expected=(s, n, nf), got=obs['sum_dtype']); k += len(obs['parse']); continue
         for key in ('ctor_real', 'complex_then_real'):
             ob = obs.get(key)
             if ob is not None and (ob[0] != ob[1] or ('complex' in ob[0]) != ob[2]):
